@@ -25,6 +25,60 @@ func (e *env) runE2E() {
 	e.e2eFile()
 }
 
+// e2eShellSlowConsumer: the consumer of the shell session does not read while
+// the remote command prints more than the adapter's 64-message buffer holds.
+// Everything the command printed must still come out (property text: "any
+// application write ... arrives at the far end as the same bytes").
+func (e *env) e2eShellSlowConsumer() {
+	a, d := e.mesh.Nodes[0].Agent, e.mesh.Nodes[2].Agent
+	n := 70 * 16355
+	src := filepath.Join(e.scratch, "shell-slow.bin")
+	content := e.c.Rand.Bytes(n)
+	if err := os.WriteFile(src, content, 0o644); err != nil {
+		panic(err)
+	}
+	defer os.Remove(src)
+	r := caseRec{Layer: "L2", Path: "shell-out-slow-consumer", Blocks: []int{n}}
+	ctx, cancel := context.WithTimeout(context.Background(), 60*time.Second)
+	defer cancel()
+	sess, err := a.OpenShellStream(ctx, d.ID(), &shell.ShellMeta{Command: "cat", Args: []string{src}}, false)
+	if err != nil {
+		e.c.Fail("tunnel-open-failed", "shell: "+err.Error(), r)
+		return
+	}
+	select { // the ACK
+	case <-sess.Receive:
+	case <-time.After(20 * time.Second):
+	}
+	// pause until the remote side is done and the ingress has processed its close
+	select {
+	case <-sess.Done:
+	case <-time.After(40 * time.Second):
+	}
+	var out []byte
+	for {
+		select {
+		case msg := <-sess.Receive:
+			if len(msg) > 0 && msg[0] == shell.MsgStdout {
+				out = append(out, msg[1:]...)
+			}
+			continue
+		default:
+		}
+		break
+	}
+	sess.Close()
+	r.Got = len(out)
+	r.OK = bytes.Equal(out, content)
+	if !r.OK {
+		e.c.Fail("shell-output-dropped-slow-consumer", fmt.Sprintf("the command printed %d bytes while the session consumer was paused; %d bytes came out of the session afterwards", n, len(out)), r)
+	}
+	e.record(r, false)
+	e.c.Case("L2/shell-out-slow-consumer", true, r)
+	e.coq = append(e.coq, "c07_skip")
+	e.rec.trim()
+}
+
 // runShellIn drives the shell client -> server direction: stdin messages of
 // the given sizes are handed to the session's Send channel (what the
 // WebSocket handler does with each client message), travel through
